@@ -42,7 +42,12 @@ Upper(c) == IF c.ceil < 0 THEN 2000000000 ELSE Max(c.ceil, c.initial)
 
 AimdDrop(c, e) == Max(1, Min(e - 1, (e * c.bnum) \div c.bden))
 
-AppLimited(c, e, inflight) == IF c.algo = "aimd" THEN inflight < e ELSE inflight <= (e - 1) \div 2 /\ e > 0
+(* app-limited: in-flight below the estimate (AIMD) / strictly below half of the estimate the algorithm holds (the others: *)
+(* the harness evaluates that on the un-truncated value read through the verif accessor, logged as applim)               *)
+AppLimited(c, e, inflight, o) ==
+  IF c.algo = "aimd" THEN inflight < e
+  ELSE IF "applim" \in DOMAIN o THEN o.applim
+  ELSE inflight <= (e - 1) \div 2 /\ e > 0
 
 InitSt(c, e, nl) == [est |-> e, listeners |-> nl, seen |-> {}, since |-> 0, maxest |-> e]
 
@@ -60,7 +65,7 @@ Check(c, s, i, o) ==
   ELSE IF e > Upper(c) THEN <<"bounds", "estimate above the ceiling">>
   ELSE IF Bare(c) /\ LossSensitive(c) /\ i.drop /\ e > prev THEN <<"loss", "a drop raised the estimate">>
   ELSE IF Bare(c) /\ c.algo = "aimd" /\ i.drop /\ e # AimdDrop(c, prev) THEN <<"loss", "AIMD drop is not max(1, min(est-1, floor(est*backoff)))">>
-  ELSE IF Bare(c) /\ ~i.drop /\ AppLimited(c, prev, i.inflight) /\ e > prev THEN <<"demand", "an app-limited sample raised the estimate">>
+  ELSE IF Bare(c) /\ ~i.drop /\ AppLimited(c, prev, i.inflight, o) /\ e > prev THEN <<"demand", "an app-limited sample raised the estimate">>
   ELSE IF Bare(c) /\ c.algo = "aimd" /\ ~i.drop /\ i.inflight >= prev /\ e # prev + c.inc THEN <<"demand", "AIMD saturated sample is not +increment">>
   ELSE IF Bare(c) /\ c.algo = "aimd" /\ ~i.drop /\ i.inflight < prev /\ e # prev THEN <<"demand", "AIMD app-limited sample changed the limit">>
   ELSE IF Bare(c) /\ c.algo = "gradient" /\ i.mode = "healthy" /\ ~o.probe /\ e < Min(c.ceil, prev + c.queue)
